@@ -9,7 +9,7 @@ from props import common as K
 
 META = {
     "level": "other",
-    "technique": "static analysis of type-checked MIR (rustc_private driver): abstract interpretation of the filter decision functions into complete case tables; provenance of payload and serializer fields; list-coverage rule",
+    "technique": "static analysis of type-checked MIR (rustc_private driver): abstract interpretation of the filter decision functions into complete case tables; provenance of payload and serializer fields; list-coverage rule; symbolic bit-vector evaluation of the covering test (shared with C13); byte-equality delegation of the SKI comparison",
     "explanation": "The decision functions of the three filter kinds are abstractly interpreted — private helpers, accessors and "
                    "std's Option combinators read through, only the tests the specification is written in left opaque — and the "
                    "resulting case table must denote the specified decision function on every combination of present/absent "
